@@ -104,11 +104,11 @@ class Datagroup:
     def clear(self):
         self._container.clear()
 
-    def get(self, key, default):
+    def get(self, key, default=None):
         return self._container.get(key, default)
 
-    def pop(self, key):
-        return self._container.pop(key)
+    def pop(self, key, *default):
+        return self._container.pop(key, *default)
 
     def update(self, *args, **kwargs):
         d = dict(*args, **kwargs)
